@@ -284,12 +284,13 @@ def run(ck):
     # ---- C12.1 candidate window + C12.2 offset
     n_y = 0
     for pa in explore(ck, cand_fn, unroll=(1,)):
-        for e in pa.events:
-            if e.kind != "yield":
-                continue
+        emitted = [(e.term, e.node) for e in pa.events if e.kind == "yield"]
+        if not emitted and pa.outcome == "return" and pa.value is not None and pa.value[0] == "list":
+            # the candidates collected in a list and handed back, instead of being yielded one by one
+            emitted = [(x, pa.node) for x in pa.value[1]]
+        for t, enode in emitted:
             n_y += 1
-            t = e.term
-            we = where(cand_fn, e.node)
+            we = where(cand_fn, enode)
             if t[0] != "new" or not t[1].endswith(":AlignedPair"):
                 raise AnalysisError(f"{we}: candidate generator does not yield AlignedPair(...)")
             a = dict(t[2])
